@@ -109,6 +109,44 @@ Section Closed.
       unfold fs_set, fs_clear. destruct (str_eqb m s_version); reflexivity.
     - split; [reflexivity|]. intro m. unfold fs_set, fs_clear. destruct (str_eqb m s_version); reflexivity.
   Qed.
+  (* put / purge / clear / construction let no I/O failure out *)
+  Lemma cache_ops_never_raise_l flt c t id o f :
+    fst (cache_put ser flt c t id o f) = Ret tt /\ fst (purge c id f) = Ret tt /\
+    fst (cache_clear f) = Ret tt /\ fst (check_version ver t f) = Ret tt.
+  Proof.
+    split; [apply cache_put_closed|]. split; [apply purge_closed|]. split; [reflexivity|apply check_version_closed].
+  Qed.
+
+  (* an entry past its duration is dead: nothing is returned and the file is removed,
+     whatever it holds; duration 0 never expires *)
+  Lemma expired_entry_removed_l flt c t id f x :
+    f (fname (i_kind c) id) = Some x -> (i_dur c <> 0)%Z -> (f_ctime x + i_dur c < t)%Z ->
+    let (r, f') := cache_get deser flt c t id f in
+    r = Ret None /\ f' (fname (i_kind c) id) = None.
+  Proof.
+    intros F D X. rewrite cache_get_closed. unfold get_closed. rewrite F.
+    assert (E : expired c t x = true) by (unfold expired; lia).
+    rewrite E. split; [reflexivity|apply fs_del_same].
+  Qed.
+
+  (* the version stamp: a directory stamped by this version is left alone by a new instance;
+     any other stamp (missing, torn, another version) makes the new instance remove every
+     entry of every class, keep foreign files, and stamp the directory *)
+  Lemma version_check_l t f :
+    (ver_ok f = true -> forall m, snd (check_version ver t f) m = f m) /\
+    (ver_ok f = false ->
+       (forall k id, snd (check_version ver t f) (fname k id) = None) /\
+       (forall m, starts_with s_suds m = false -> m <> s_version -> snd (check_version ver t f) m = f m) /\
+       ver_ok (snd (check_version ver t f)) = true).
+  Proof.
+    pose proof (check_version_closed t f) as [_ C]. split; intro V.
+    - intro m. rewrite C. unfold version_lookup. rewrite V. reflexivity.
+    - split; [|split].
+      + intros k id. rewrite C. unfold version_lookup. rewrite V.
+        rewrite (str_eqb_neq _ _ (fname_not_version k id)), fname_starts_suds. reflexivity.
+      + intros m S NV. rewrite C. unfold version_lookup. rewrite V, S, (str_eqb_neq _ _ NV). reflexivity.
+      + unfold ver_ok at 1. rewrite C. unfold version_lookup. rewrite V, str_eqb_refl. cbn. apply str_eqb_refl.
+  Qed.
 End Closed.
 
 (* ------------------------------------------------------------------ *)
@@ -196,6 +234,8 @@ Section Refine.
     - (* OPut *)
       cbn [Model.step Model.spec_step]. rewrite <- Iinst.
       destruct (insts s i) as [c|] eqn:Ei; [|split; [constructor; assumption|reflexivity]].
+      destruct (storable (i_kind c) x) eqn:ST;
+        [rewrite andb_true_r|rewrite andb_false_r; split; [constructor; assumption|reflexivity]].
       destruct (cache_put ser flt c (now s) id x (fs s)) as [r f] eqn:CP.
       pose proof (cache_put_closed ser flt c (now s) id x (fs s)) as [Cr Cf]. rewrite CP in Cr, Cf. cbn in Cr, Cf.
       subst r. cbn. split; [|reflexivity].
